@@ -41,6 +41,18 @@ def cases(tier, seed):
             case["scale"] = 4                            # float64 counts: multiples of 0.25
         elif h % 7 == 3:
             case["src_at"] = ["/resolutions/1", "/a/b"][h % 2]     # the source is a level of a multires file / a nested group
+        if h % 8 == 6 and "scale" not in case and "via" not in case:
+            # narrow integer columns near their limit in the source, a wide type asked for in the result: block sums that
+            # do not fit the SOURCE type must come out exact
+            case["in_dtype"] = ["int8", "uint8", "int16"][h % 3]
+            top = {"int8": 127, "uint8": 255, "int16": 32767}[case["in_dtype"]]
+            case["px"] = [[p[0], p[1]] + [rng.choice([top, top - 1, top // 2 + 1]) for _ in p[2:]] for p in case["px"]]
+            case["out_dtype"] = "int64"
+            case.pop("src_at", None)           # (the decoy collection next to a nested source holds values + 1)
+        if h % 10 == 9 and "via" not in case:
+            # the source path was used before, by this process, for a cooler with OTHER bin boundaries
+            lens = gen.chrom_lens(table)
+            case["prior_table"] = gen.table_from_edges([[0, ln] if ln < 2 else [0, 1, ln] for ln in lens])
         yield "co.coarsen", case
     # the reader-writer lock protocol when coarsening with worker processes INTO THE FILE BEING READ (slow: real pools)
     for h in range(8 if tier == "quick" else 120):
